@@ -355,3 +355,27 @@ def _(c):
                 c.scenario(f"{kind}-scope-{how}:{ua}->{ub}", pre)
     c.ensures("near(result, (pow10(x / 10) if formula == 'pow10(x / 10)' else (x + 273.15 if formula == 'x + 273.15' else (x + 459.67) * 5 / 9)), 1000)", "same-formula-as-without-the-scope")
     c.no_raise()
+
+
+# ---- the same quantity object asked for a value, converted in place, and asked again (same target text): the second answer is the one a
+#      quantity created directly in the new unit gives -- nothing about the first conversion is remembered ------------------------------------
+AGAIN = [("Cel", "K", "degF"), ("K", "degF", "Cel"), ("m:W", "d:Bm", "W"), ("d:Bm", "m:W", "d:BW"), ("d:B", "PR", "Np"), ("V", "d:BV", "m:V"), ("d:BuV", "V", "d:BV")]
+
+
+@contract(Q + ".value", ["C05"], name="Quantity.value[asked-again-after-an-in-place-conversion]")
+def _(c):
+    c.bound = "the listed (unit, asked unit, unit converted to in place) triples; the value symbolic"
+    for ua, target, ub in AGAIN:
+        def pre(bd, ua=ua, target=target, ub=ub):
+            from contracts.units_common import T
+            ra, rt, rb = U.render(T(ua)), U.render(T(target)), U.render(T(ub))
+            q = bd.new(Q, bd.real("x"), ra)
+            first, exc = bd.call_catching(bd.getattr(q, "value"), rt)
+            bd.assume(exc is None)
+            r, exc = bd.call_catching(bd.getattr(q, "to"), rb)
+            bd.assume(exc is None)
+            twin = bd.new(Q, bd.getattr(bd.getattr(q, "magnitude"), "value"), rb)
+            return dict(args=[q, rt], env=dict(twin=twin, rt=rt, first=first))
+        c.scenario(f"{ua}: value({target}), to({ub}), value({target})", pre)
+    c.ensures("near(result, twin.value(rt), 1000)", "same-as-a-quantity-created-in-the-new-unit")
+    c.no_raise()
